@@ -443,17 +443,95 @@ func checkC17(w *World, r *Report) {
 	}
 	sar := w.Method("internal/streams/dns", "ClientDnsConnection", "SendAndReceive")
 	qry := w.Method("internal/streams/dns", "ClientDnsConnection", "Query")
-	isEv := func(in ssa.Instruction) bool {
+	kindOf := func(in ssa.Instruction) string {
 		c, ok := in.(ssa.CallInstruction)
 		if !ok {
-			return false
+			return ""
 		}
 		f := sCallee(c)
-		if f == nil {
+		switch {
+		case f == nil:
+			return ""
+		case f == sar:
+			return "ack"
+		case f == qry:
+			return "closed-option"
+		case f.Name() == "Close" && c.Common().IsInvoke():
+			return "close"
+		}
+		return ""
+	}
+	// helpers of Close (same receiver) are summarised by the event sequences of their return paths
+	helperSeqs := map[*ssa.Function][][]string{}
+	var summarise func(g *ssa.Function, depth int) [][]string
+	isEvIn := func(depth int) func(in ssa.Instruction) bool {
+		return func(in ssa.Instruction) bool {
+			if kindOf(in) != "" {
+				return true
+			}
+			if c, ok := in.(*ssa.Call); ok && depth < 2 {
+				if sc := c.Call.StaticCallee(); sc != nil && inModule(sc) && recvNamed(fnObj(sc)) == recvNamed(m) && fnObj(sc) != sar && fnObj(sc) != qry {
+					return len(summarise(sc, depth+1)) > 0
+				}
+			}
 			return false
 		}
-		return f == sar || f == qry || (f.Name() == "Close" && c.Common().IsInvoke())
 	}
+	expand := func(events []ssa.Instruction, depth int) [][]string {
+		seqs := [][]string{{}}
+		for _, evn := range events {
+			if k := kindOf(evn); k != "" {
+				for i := range seqs {
+					seqs[i] = append(seqs[i], k)
+				}
+				continue
+			}
+			sub := summarise(evn.(*ssa.Call).Call.StaticCallee(), depth+1)
+			var next [][]string
+			for _, a := range seqs {
+				for _, b := range sub {
+					next = append(next, append(append([]string{}, a...), b...))
+				}
+			}
+			if len(next) > 64 {
+				next = next[:64]
+			}
+			seqs = next
+		}
+		return seqs
+	}
+	summarise = func(g *ssa.Function, depth int) [][]string {
+		if v, ok := helperSeqs[g]; ok {
+			return v
+		}
+		helperSeqs[g] = nil
+		seen := map[string]bool{}
+		var out [][]string
+		enumPaths(g, nil, isEvIn(depth), nil, func(e pathExit) {
+			if _, isRet := e.Last.(*ssa.Return); !isRet {
+				return
+			}
+			for _, sq := range expand(e.State.Events, depth) {
+				k := strings.Join(sq, ",")
+				if !seen[k] {
+					seen[k] = true
+					out = append(out, sq)
+				}
+			}
+		})
+		nonEmpty := false
+		for _, sq := range out {
+			if len(sq) > 0 {
+				nonEmpty = true
+			}
+		}
+		if !nonEmpty {
+			out = nil
+		}
+		helperSeqs[g] = out
+		return out
+	}
+	isEv := isEvIn(0)
 	bad := ""
 	paths, notified := 0, 0
 	ok := enumPaths(fn, nil, isEv, nil, func(e pathExit) {
@@ -461,18 +539,24 @@ func checkC17(w *World, r *Report) {
 			return
 		}
 		paths++
-		var seq []string
-		for _, evn := range e.State.Events {
-			f := sCallee(evn.(ssa.CallInstruction))
-			switch {
-			case f == sar:
-				seq = append(seq, "ack")
-			case f == qry:
-				seq = append(seq, "closed-option")
-			default:
-				seq = append(seq, "close")
-			}
+		for _, seq := range expand(e.State.Events, 0) {
+			c17CloseSeq(e, seq, &bad, &notified)
 		}
+	})
+	if !ok {
+		r.Undecided("R17.3", key, w.Pos(m.Pos()), "path budget exceeded")
+		return
+	}
+	if notified == 0 {
+		bad = "no path through Close sends the final acknowledgement and the Closed option"
+	}
+	r.Check(bad == "", "R17.3", key, w.Pos(m.Pos()), fmt.Sprintf("%d path(s); %d notify (ack, then Closed option) before closing the communicator, the rest are already-closed / pre-handshake", paths, notified), bad, "paths", paths)
+}
+
+func c17CloseSeq(e pathExit, seq []string, badp *string, notifiedp *int) {
+	bad, notified := *badp, *notifiedp
+	defer func() { *badp, *notifiedp = bad, notified }()
+	{
 		if len(seq) == 0 || seq[len(seq)-1] != "close" {
 			bad = "a path through Close does not close the communicator"
 			return
@@ -506,15 +590,7 @@ func checkC17(w *World, r *Report) {
 		if !guard {
 			bad = "Close skips the final acknowledgement / Closed option although the session is live"
 		}
-	})
-	if !ok {
-		r.Undecided("R17.3", key, w.Pos(m.Pos()), "path budget exceeded")
-		return
 	}
-	if notified == 0 {
-		bad = "no path through Close sends the final acknowledgement and the Closed option"
-	}
-	r.Check(bad == "", "R17.3", key, w.Pos(m.Pos()), fmt.Sprintf("%d path(s); %d notify (ack, then Closed option) before closing the communicator, the rest are already-closed / pre-handshake", paths, notified), bad, "paths", paths)
 }
 
 // ruleFreshCopyBuffers: the scratch buffer handed to io.CopyBuffer must be
